@@ -75,6 +75,10 @@ func (c08) Gen(seed uint64, run int, tier string) *Plan {
 			p.Actions = append(p.Actions, Action{Kind: "callback", B: node, C: r.Intn(len(world.Callbacks)), D: r.Intn(1 << 30), A: r.Intn(4)})
 		case x < 93:
 			p.Actions = append(p.Actions, Action{Kind: "dup-callback", B: node, C: r.Intn(len(world.Callbacks)), D: r.Intn(1 << 30)})
+		case x < 96:
+			// an operator clears the task list of a pivot agent that is working on a task (the list
+			// shows copies; the task itself went out through the parents): its answer still counts
+			p.Actions = append(p.Actions, Action{Kind: "clear-answer", B: node, D: r.Intn(1 << 20)})
 		default:
 			// the pipe to a pivot agent drops while it works on a task; it is linked again below
 			// another agent (C) and answers from there
@@ -293,6 +297,43 @@ func (c08) Exec(p *Plan, dir string) *Result {
 			res.Probe("tasks-issued")
 		case "fetch":
 			fetchAll()
+		case "clear-answer":
+			n := nodes[a.B%len(nodes)]
+			if n.d.Parent == nil {
+				continue
+			}
+			fetchAll()
+			if len(res.Violations) > 0 {
+				break
+			}
+			if len(n.open) == 0 {
+				taskN++
+				rid := uint32(0x08000000 + taskN)
+				wit.Task(n.d.NameID(), fmt.Sprintf("%08x", rid), world.CmdSleep, "sleep", map[string]any{"Arguments": "2;2"})
+				w.Sim.Settle()
+				n.pending = append(n.pending, &c08Task{rid: rid, cmd: world.CmdSleep, args: []any{uint32(2), uint32(2)}})
+				fetchAll()
+				if len(res.Violations) > 0 || len(n.open) == 0 {
+					break
+				}
+			}
+			rid := n.open[0]
+			taskN++
+			wit.Task(n.d.NameID(), fmt.Sprintf("%08x", 0x08200000+taskN), 0, "task::clear", map[string]any{"CommandID": "Teamserver", "Command": "task::clear"})
+			w.Sim.Settle()
+			delay := uint32(200000 + a.D%100000)
+			var pb world.PB
+			pb.Int32(delay).Int32(4)
+			w.SendUp(n.d, []world.Pkg{{Cmd: world.CmdSleep, RID: rid, Body: pb.B}})
+			wit.Pump()
+			res.Probe("answers-after-task-clear")
+			res.FP("clear-answer", n.d.Depth())
+			if ag := w.TS.AgentInstance(int(n.d.ID)); ag != nil && ag.Info.SleepDelay != int(delay) {
+				res.Violate("C08", "relayed-callback", "answer-after-task-clear-dropped", fmt.Sprintf("agent %s (depth %d) was working on task rid=%x when an operator cleared its task list; its answer, relayed by its parents, was not acted on (sleep %d, answered %d)", n.d.NameID(), n.d.Depth(), rid, ag.Info.SleepDelay, delay), w.Sim)
+				break
+			}
+			n.open = n.open[1:]
+			n.done = append(n.done, rid)
 		case "relink":
 			ni := a.B % len(nodes)
 			n := nodes[ni]
